@@ -137,7 +137,11 @@ impl Sim {
                     }
                 }
                 if let Some(l) = &list {
-                    attrs.push(RAttr::PasswordAlgorithms(l.clone()));
+                    // twist bit 6: the cookie announces algorithms but the list is missing (what the client does then
+                    // is outside the listed properties; whatever it does must keep the other invariants)
+                    if !(r.twist & 64 != 0 && *cookie) {
+                        attrs.push(RAttr::PasswordAlgorithms(l.clone()));
+                    }
                 }
                 // a 401 that carries integrity is keyed with the key the new challenge implies
                 let preferred = match &list {
@@ -176,7 +180,7 @@ impl Sim {
                         let other = [vec![RAlg { id: 1, params: vec![] }], vec![RAlg { id: 2, params: vec![] }, RAlg { id: 1, params: vec![] }]];
                         let pick = if cur.as_ref() == Some(&other[0]) { other[1].clone() } else { other[0].clone() };
                         attrs.push(RAttr::PasswordAlgorithms(pick));
-                    } else if a {
+                    } else if a && r.twist & 64 == 0 {
                         // a conforming server keeps offering its algorithms together with the cookie bit
                         attrs.push(RAttr::PasswordAlgorithms(self.lt_sess.as_ref().unwrap().algs.clone().unwrap()));
                     }
